@@ -517,33 +517,55 @@ theorem comap_foldl {μ' : Type} (g : μ' → μ) (c : Calc μ σ ρ) (s : σ) (
 section InterpReads
 variable {α S Q : Type} [Add α] [Mul α] [Div α] [OfNat α 0] [OfNat α 1] [LT α] [LE α] [DecidableLT α] [DecidableLE α]
 
-omit [LE α] [DecidableLE α] in
+omit [Add α] [Mul α] [Div α] [OfNat α 0] [OfNat α 1] in
+/-- a (filtered) source of field `f` depends on the match only through the values of `f` -/
+theorem numSrc_sameOn (s : NSrc α) {F : List Field} (hf : s.field ∈ F) (d d' : DocVals α) (h : SameOn F d d') :
+    numSrc s d = numSrc s d' := by
+  unfold numSrc
+  cases s.pred with
+  | none => exact (h _ hf).1
+  | some p => simp only [filterSrc, (h _ hf).1]
+
+omit [Add α] [Mul α] [Div α] [OfNat α 0] [OfNat α 1] [LT α] [LE α] [DecidableLT α] [DecidableLE α] in
+theorem txtSrc_sameOn (s : TSrc) {F : List Field} (hf : s.field ∈ F) (d d' : DocVals α) (h : SameOn F d d') :
+    txtSrc s d = txtSrc s d' := by
+  unfold txtSrc
+  cases s.pred with
+  | none => exact (h _ hf).2.1
+  | some p => simp only [filterSrc, (h _ hf).2.1]
+
+omit [Add α] [Mul α] [Div α] [OfNat α 0] [OfNat α 1] [LT α] [LE α] [DecidableLT α] [DecidableLE α] in
+theorem dateSrc_sameOn (s : DSrc) {F : List Field} (hf : s.field ∈ F) (d d' : DocVals α) (h : SameOn F d d') :
+    dateSrc s d = dateSrc s d' := by
+  unfold dateSrc
+  cases s.pred with
+  | none => exact (h _ hf).2.2
+  | some p => simp only [filterSrc, (h _ hf).2.2]
+
 theorem metricCalc_readsOnly (env : Env α S Q) (m : Metric α) : ReadsOnly (metricCalc env m) m.fields := by
   cases m with
   | count => exact readsOnly_embed _ _ _ _ _ (readsOnly_svm _ _ _ _ (fun _ _ _ => rfl))
-  | sum f => exact readsOnly_embed _ _ _ _ _ (readsOnly_svm _ _ _ _ (fun d d' h => (h f (by simp [Metric.fields])).1))
-  | min f => exact readsOnly_embed _ _ _ _ _ (readsOnly_svm _ _ _ _ (fun d d' h => (h f (by simp [Metric.fields])).1))
-  | max f => exact readsOnly_embed _ _ _ _ _ (readsOnly_svm _ _ _ _ (fun d d' h => (h f (by simp [Metric.fields])).1))
-  | maxFrom f i => exact readsOnly_embed _ _ _ _ _ (readsOnly_svm _ _ _ _ (fun d d' h => (h f (by simp [Metric.fields])).1))
+  | sum f => exact readsOnly_embed _ _ _ _ _ (readsOnly_svm _ _ _ _ (fun d d' h => numSrc_sameOn f (by simp [Metric.fields]) d d' h))
+  | min f => exact readsOnly_embed _ _ _ _ _ (readsOnly_svm _ _ _ _ (fun d d' h => numSrc_sameOn f (by simp [Metric.fields]) d d' h))
+  | max f => exact readsOnly_embed _ _ _ _ _ (readsOnly_svm _ _ _ _ (fun d d' h => numSrc_sameOn f (by simp [Metric.fields]) d d' h))
+  | maxFrom f i => exact readsOnly_embed _ _ _ _ _ (readsOnly_svm _ _ _ _ (fun d d' h => numSrc_sameOn f (by simp [Metric.fields]) d d' h))
   | avg f =>
-    exact readsOnly_embed _ _ _ _ _ (readsOnly_wavg _ _ _ (fun d d' h => (h f (by simp [Metric.fields])).1)
+    exact readsOnly_embed _ _ _ _ _ (readsOnly_wavg _ _ _ (fun d d' h => numSrc_sameOn f (by simp [Metric.fields]) d d' h)
       (fun ws hws => by cases hws))
   | wavg f w =>
-    exact readsOnly_embed _ _ _ _ _ (readsOnly_wavg _ _ _ (fun d d' h => (h f (by simp [Metric.fields])).1)
-      (fun ws hws d d' h => by cases hws; exact (h w (by simp [Metric.fields])).1))
+    exact readsOnly_embed _ _ _ _ _ (readsOnly_wavg _ _ _ (fun d d' h => numSrc_sameOn f (by simp [Metric.fields]) d d' h)
+      (fun ws hws d d' h => by cases hws; exact numSrc_sameOn w (by simp [Metric.fields]) d d' h))
 
-omit [LE α] [DecidableLE α] in
 theorem subCalc1_readsOnly (env : Env α S Q) (x : SubAgg α) : ReadsOnly (subCalc1 env x) x.fields := by
   cases x with
   | metric m => exact readsOnly_embed _ _ _ _ _ (readsOnly_mapVal _ _ _ (metricCalc_readsOnly env m))
   | card f =>
     exact readsOnly_embed _ _ _ _ _ (readsOnly_mapVal _ _ _
-      (readsOnly_sketch _ _ _ _ (fun d d' h => (h f (by simp [SubAgg.fields])).2.1)))
+      (readsOnly_sketch _ _ _ _ (fun d d' h => txtSrc_sameOn f (by simp [SubAgg.fields]) d d' h)))
   | quant f =>
     exact readsOnly_embed _ _ _ _ _ (readsOnly_mapVal _ _ _
-      (readsOnly_sketch _ _ _ _ (fun d d' h => (h f (by simp [SubAgg.fields])).1)))
+      (readsOnly_sketch _ _ _ _ (fun d d' h => numSrc_sameOn f (by simp [SubAgg.fields]) d d' h)))
 
-omit [LE α] [DecidableLE α] in
 theorem subCalc_readsOnly (env : Env α S Q) (subs : List (SubAgg α)) :
     ReadsOnly (subCalc env subs) (subs.flatMap SubAgg.fields) := by
   apply readsOnly_all
@@ -560,22 +582,22 @@ theorem aggCalc_readsOnly (env : Env α S Q) (a : Agg α) : ReadsOnly (aggCalc e
   | metric m => exact readsOnly_embed _ _ _ _ _ (readsOnly_mapVal _ _ _ (metricCalc_readsOnly env m))
   | card f =>
     exact readsOnly_embed _ _ _ _ _ (readsOnly_mapVal _ _ _
-      (readsOnly_sketch _ _ _ _ (fun d d' h => (h f (by simp [Agg.reads])).2.1)))
+      (readsOnly_sketch _ _ _ _ (fun d d' h => txtSrc_sameOn f (by simp [Agg.reads]) d d' h)))
   | quant f =>
     exact readsOnly_embed _ _ _ _ _ (readsOnly_mapVal _ _ _
-      (readsOnly_sketch _ _ _ _ (fun d d' h => (h f (by simp [Agg.reads])).1)))
+      (readsOnly_sketch _ _ _ _ (fun d d' h => numSrc_sameOn f (by simp [Agg.reads]) d d' h)))
   | terms f size subs =>
     exact readsOnly_embed _ _ _ _ _ (readsOnly_mapVal _ _ _
-      (readsOnly_terms _ _ _ _ _ _ (fun d d' h => (h f (by simp [Agg.reads])).2.1)
-        (readsOnly_mono _ (subCalc_readsOnly env subs) (fun g hg => by simp [Agg.reads]; exact Or.inr (by simpa using hg)))))
+      (readsOnly_terms _ _ _ _ _ _ (fun d d' h => txtSrc_sameOn f (by simp [Agg.reads]) d d' h)
+        (readsOnly_mono (F := subs.flatMap SubAgg.fields) _ (subCalc_readsOnly env subs) (fun g hg => by simp [Agg.reads]; exact Or.inr (by simpa using hg)))))
   | ranges f rs subs =>
     exact readsOnly_embed _ _ _ _ _ (readsOnly_mapVal _ _ _
-      (readsOnly_range _ _ _ _ _ (fun d d' h => (h f (by simp [Agg.reads])).1)
-        (readsOnly_mono _ (subCalc_readsOnly env subs) (fun g hg => by simp [Agg.reads]; exact Or.inr (by simpa using hg)))))
+      (readsOnly_range _ _ _ _ _ (fun d d' h => numSrc_sameOn f (by simp [Agg.reads]) d d' h)
+        (readsOnly_mono (F := subs.flatMap SubAgg.fields) _ (subCalc_readsOnly env subs) (fun g hg => by simp [Agg.reads]; exact Or.inr (by simpa using hg)))))
   | dranges f rs subs =>
     exact readsOnly_embed _ _ _ _ _ (readsOnly_mapVal _ _ _
-      (readsOnly_range _ _ _ _ _ (fun d d' h => (h f (by simp [Agg.reads])).2.2)
-        (readsOnly_mono _ (subCalc_readsOnly env subs) (fun g hg => by simp [Agg.reads]; exact Or.inr (by simpa using hg)))))
+      (readsOnly_range _ _ _ _ _ (fun d d' h => dateSrc_sameOn f (by simp [Agg.reads]) d d' h)
+        (readsOnly_mono (F := subs.flatMap SubAgg.fields) _ (subCalc_readsOnly env subs) (fun g hg => by simp [Agg.reads]; exact Or.inr (by simpa using hg)))))
 
 theorem bucketCalc_readsOnly (env : Env α S Q) (aggs : List (Agg α)) :
     ReadsOnly (bucketCalc env aggs) (aggs.flatMap Agg.reads) := by
